@@ -30,6 +30,7 @@ REGISTRIES = {
     "orc_x86_sse_flags": "orccpu-x86", "orc_x86_mmx_flags": "orccpu-x86",
     "_orc_debug_level": "orcdebug", "_orc_debug_print_func": "orcdebug",
 }
+DESCRIPTOR_RECORDS = ("OrcTarget", "OrcX86Target", "OrcRuleSet", "OrcOpcodeSet", "OrcStaticOpcode", "OrcRule")
 REGISTRY_FIELDS = {("OrcTarget", "rule_sets"), ("OrcTarget", "n_rule_sets"), ("OrcRuleSet", "rules"), ("OrcRule", "emit"), ("OrcRule", "emit_user")}
 
 
@@ -121,6 +122,25 @@ def d1(db, rep, rule="D1-R-LOCK"):
             rep.violation(rule, where(f), key, "allocator state accessed outside orccodemem.c", line=n.line)
     rep.floor(rule, 6)
 
+
+
+def lock_released_on_every_exit(db, rep, rule, tub):
+    """every function of translation unit `tub` that takes the global mutex returns with it released, whatever the path
+    (shared with C06: the failure paths of the code-memory allocator are exactly the ones a test never takes)"""
+    n = 0
+    for f in db.tu(tub).main_functions():
+        if f.name in LOCK or not any(c.name in LOCK and LOCK[c.name][0] == "global" for c in f.calls()):
+            continue
+        n += 1
+        rep.saw(f)
+        ex = LockState(f, "global").exit_states()
+        rep.check(all(not h for _, h in ex) and bool(ex), rule, where(f), "global@%s" % f.name,
+                  "global mutex released on every path to the exit",
+                  "%s can return with the global mutex still held (a failure exit): the compile that hit the failure still falls back, but the next Orc "
+                  "operation that takes the mutex - another compile, a free, orc_init - blocks for ever" % f.name)
+    if n < 1:
+        raise AnalysisBroken("no function of %s takes the global mutex" % tub)
+    return n
 
 
 def once_enter_value_guarded(db, rep, rule):
@@ -306,6 +326,10 @@ def run(ctx):
     for f in reach_run:
         for n, kind, key in writes_of(f):
             isreg = (kind == "global" and key in REGISTRIES) or (kind == "field" and key in REGISTRY_FIELDS)
+            # target / rule-set / opcode-set descriptors are process-wide objects (static or registered once): a store to any of
+            # their fields during a compile is a store to shared state
+            if kind == "field" and key[0] in DESCRIPTOR_RECORDS:
+                isreg = True
             if kind == "global" and key not in REGISTRIES:
                 # any other process-wide mutable: static once flags etc.
                 g = None
